@@ -6,7 +6,7 @@ namespace C12.NaryGen
 open C12
 
 /-- the roster of the translation over these keys (no nil entry; a server's id is its key) -/
-def roster (keys : List Nat) : Gen.C12Nary.Roster := { List := keys.map fun k => some { ID := k } }
+def roster (keys : List Nat) : Gen.C12Nary.Roster := { List := keys.map fun k => some { Public := k } }
 
 /-- the state function of one iteration, read off the model -/
 def step (N rootIdx n : Nat) (s : List Nat × List Nat × Nodes) (i : Int) : Option (List Nat × List Nat × Nodes) :=
@@ -58,7 +58,7 @@ macro "nary_step_tac" keys:ident N:ident r:term:max i:ident p:ident c:ident h:id
   rw [hlen, $imodlemma (by omega) hn]
   simp only []
   have hlt : (($i).toNat + $r) % ($keys).length < ($keys).length := Nat.mod_lt _ hn
-  have hidx : Gen.Rt.idx (roster $keys).List (((($i).toNat + $r) % ($keys).length : Nat) : Int) = some (some { ID := ($keys)[(($i).toNat + $r) % ($keys).length] }) := by
+  have hidx : Gen.Rt.idx (roster $keys).List (((($i).toNat + $r) % ($keys).length : Nat) : Int) = some (some { Public := ($keys)[(($i).toNat + $r) % ($keys).length] }) := by
     rw [idx_nat]
     simp [roster, hlt]
   rw [hidx]
@@ -106,7 +106,7 @@ theorem withRoot_nil (keys : List Nat) (N : Nat) (hne : keys ≠ []) :
   rw [Gen.Rt.loop_step (step N 0 keys.length) none]
   · have hlen : Gen.Rt.len (roster keys).List = (keys.length : Int) := by simp [Gen.Rt.len, roster]
     rw [hlen, upto_range', foldlM_step]
-    have hidx0 : Gen.Rt.idx (roster keys).List 0 = some (some { ID := keys.head hne }) := by
+    have hidx0 : Gen.Rt.idx (roster keys).List 0 = some (some { Public := keys.head hne }) := by
       cases keys with
       | nil => exact absurd rfl hne
       | cons a b => simp [Gen.Rt.idx, roster]
@@ -123,10 +123,10 @@ theorem withRoot_nil (keys : List Nat) (N : Nat) (hne : keys ≠ []) :
     nary_step_tac keys N 0 i p c h hne hi1 (imod_nat0 i keys.length)
 
 theorem search_aux (f : Int × Option Gen.C12Nary.ServerIdentity → Option (Option (Int × Option Gen.C12Nary.ServerIdentity)))
-    (k : Nat) (hf : ∀ (i : Int) (s : Gen.C12Nary.ServerIdentity), f (i, some s) = if (s.ID == k) then some (some (i, some s)) else none)
+    (k : Nat) (hf : ∀ (i : Int) (s : Gen.C12Nary.ServerIdentity), f (i, some s) = if (s.Public == k) then some (some (i, some s)) else none)
     (keys : List Nat) (off : Nat) :
-    (Gen.Rt.enumFrom off (keys.map fun k => (some { ID := k } : Option Gen.C12Nary.ServerIdentity))).findSome? f =
-    (keys.findIdx? (· == k)).map fun i => some (((off + i : Nat) : Int), some { ID := k }) := by
+    (Gen.Rt.enumFrom off (keys.map fun k => (some { Public := k } : Option Gen.C12Nary.ServerIdentity))).findSome? f =
+    (keys.findIdx? (· == k)).map fun i => some (((off + i : Nat) : Int), some { Public := k }) := by
   induction keys generalizing off with
   | nil => simp [Gen.Rt.enumFrom]
   | cons a r ih =>
@@ -139,16 +139,16 @@ theorem search_aux (f : Int × Option Gen.C12Nary.ServerIdentity → Option (Opt
       cases List.findIdx? (fun x => x == k) r <;> simp <;> omega
 
 theorem search_eq (keys : List Nat) (k : Nat) :
-    Gen.C12Nary.Roster_Search (roster keys) k =
-      some (match search keys k with | some i => ((i : Int), some { ID := k }) | none => (-1, none)) := by
-  unfold Gen.C12Nary.Roster_Search Gen.Rt.rangeReturn Gen.Rt.enum
+    Gen.C12Nary.Roster_searchByKey (roster keys) k =
+      some (match search keys k with | some i => ((i : Int), some { Public := k }) | none => (-1, none)) := by
+  unfold Gen.C12Nary.Roster_searchByKey Gen.Rt.rangeReturn Gen.Rt.enum
   simp only [roster]
   rw [search_aux _ k (by intro i s; rfl) keys 0]
   unfold search
   cases List.findIdx? (fun x => x == k) keys <;> simp
 
 theorem withRoot_some (keys : List Nat) (N k : Nat) :
-    (Gen.C12Nary.Roster_GenerateNaryTreeWithRoot (roster keys) (Int.ofNat N) (some { ID := k }) []).map (·.1) =
+    (Gen.C12Nary.Roster_GenerateNaryTreeWithRoot (roster keys) (Int.ofNat N) (some { Public := k }) []).map (·.1) =
       ofOutcome (genNary N (search keys k) keys.length) := by
   unfold Gen.C12Nary.Roster_GenerateNaryTreeWithRoot
   simp only [Option.isNone_some, Bool.not_false, if_true, search_eq]
